@@ -57,20 +57,28 @@ def wiring(chk):
     e.ext_models["pytket.circuit.Circuit"] = PC
     e.ext_models["pytket"] = SObj(ClassVal("pytket_mod", builtin=True), {"circuit": SObj(ClassVal("pytket_circuit_mod", builtin=True), {"Circuit": PC})})
     count = 0
+    UNIT = ClassVal("UnitID", builtin=True)
+    UNIT.attrs["__str__"] = Builtin("__str__", lambda self_: self_.fields["name"])
+    UNIT.attrs["__repr__"] = Builtin("__repr__", lambda self_: self_.fields["name"])
+
+    def units(names, sizes):
+        """pytket's unit order: register by register (names in lexicographic order), index numerically — NOT the string order of `reg[idx]`"""
+        return [SObj(UNIT, {"name": f"{n}[{i}]", "reg_name": n, "index": [i]}) for n, sz in zip(names, sizes) for i in range(sz)]
     shapes = []
-    for qregs in ([1], [2], [1, 2], [2, 1]):
+    for qregs in ([1], [2], [1, 2], [2, 1], [11]):
         for cregs in ([], [1], [2, 1]):
             shapes.append((qregs, cregs))
     names_pool = ["a", "b", "c", "d"]
     perms = [()] + [p for n in range(1, 5) for p in itertools.permutations(names_pool[:n])]
-    scenarios = [(q, c, p, arr) for (q, c) in shapes[:6] for p in perms[:9] for arr in (False, True)] + [([1], [], p, arr) for p in perms[9:] for arr in (False, True)]
+    scenarios = [(q, c, p, arr) for (q, c) in shapes[:6] for p in perms[:9] for arr in (False, True)] + [([11], [], (), arr) for arr in (False, True)] + [([1], [], p, arr) for p in perms[9:] for arr in (False, True)]
     for qregs, cregs, params, use_arrays in scenarios:
         def t(it, qregs=qregs, cregs=cregs, params=params, use_arrays=use_arrays):
             PPD = it.lookup_global(m, "ParsedPytketDef")
             nq, nb = sum(qregs), sum(cregs)
             circ = SObj(PC, {"q_registers": [SObj(ClassVal("Reg", builtin=True), {"size": s}) for s in qregs],
                              "c_registers": [SObj(ClassVal("Reg", builtin=True), {"size": s}) for s in cregs],
-                             "n_qubits": nq, "n_bits": nb, "free_symbols": Builtin("free_symbols", lambda: set(params))})
+                             "n_qubits": nq, "n_bits": nb, "free_symbols": Builtin("free_symbols", lambda: set(params)),
+                             "qubits": units(["q", "q2", "qB"], qregs), "bits": units(["c", "c1", "cA"], cregs)})
             n_in = (len(qregs) if use_arrays else nq) + ((1 if params else 0) if use_arrays else len(params))
             rec = Rec(n_in)
 
